@@ -579,7 +579,7 @@ func RunSyncBehaviour(c *Ctx, name string, toks []Tok, ih uint64, shapeName stri
 // and data(b) (fetched from DA height d+1) are queued in the sync channels at the same time, so
 // SyncLoop may take them in either order; the node is stopped cleanly while it is applying
 // block b (parked after the given number of durable writes) with the other event still queued.
-func (s *syncRun) stopQueued(b uint64, pauseAfter int) {
+func (s *syncRun) stopQueued(b uint64, pauseAfter int, dataFirst bool) {
 	if s.isDown() || b+1 > s.top || len(s.dataOf(b).Txs) == 0 {
 		return
 	}
@@ -591,11 +591,20 @@ func (s *syncRun) stopQueued(b uint64, pauseAfter int) {
 	s.daH = d + 2
 	s.placed[evKey("hdr", b+1)] = true
 	s.placed[evKey("data", b)] = true
-	s.c.Tr.Emit("Deliver", world.F{"node": "full", "kind": "hdr", "h": int(b + 1), "via": "queued", "dah": int(d)})
-	s.c.Tr.Emit("Deliver", world.F{"node": "full", "kind": "data", "h": int(b), "via": "queued", "dah": int(d + 1)})
 	s.full.KV.PauseAfter(pauseAfter)
-	m.VerifHeaderInCh() <- block.NewHeaderEvent{Header: s.headerOf(b + 1), DAHeight: d}
-	m.VerifDataInCh() <- block.NewDataEvent{Data: s.dataOf(b), DAHeight: d + 1}
+	// the loop waits in its select: whichever event is sent first it takes first. Both orders are produced - with the
+	// data first the loop starts applying block b at once and the header of b+1 is the event left in the channel.
+	if dataFirst {
+		s.c.Tr.Emit("Deliver", world.F{"node": "full", "kind": "data", "h": int(b), "via": "queued", "dah": int(d + 1)})
+		s.c.Tr.Emit("Deliver", world.F{"node": "full", "kind": "hdr", "h": int(b + 1), "via": "queued", "dah": int(d)})
+		m.VerifDataInCh() <- block.NewDataEvent{Data: s.dataOf(b), DAHeight: d + 1}
+		m.VerifHeaderInCh() <- block.NewHeaderEvent{Header: s.headerOf(b + 1), DAHeight: d}
+	} else {
+		s.c.Tr.Emit("Deliver", world.F{"node": "full", "kind": "hdr", "h": int(b + 1), "via": "queued", "dah": int(d)})
+		s.c.Tr.Emit("Deliver", world.F{"node": "full", "kind": "data", "h": int(b), "via": "queued", "dah": int(d + 1)})
+		m.VerifHeaderInCh() <- block.NewHeaderEvent{Header: s.headerOf(b + 1), DAHeight: d}
+		m.VerifDataInCh() <- block.NewDataEvent{Data: s.dataOf(b), DAHeight: d + 1}
+	}
 	synctest.Wait()
 	paused := s.full.KV.IsPaused()
 	s.c.Tr.Emit("StopInFlight", world.F{"node": "full", "paused": paused})
@@ -637,7 +646,7 @@ func RunSyncStopQueued(c *Ctx) {
 								s.deliver("data", h, "chan")
 							}
 							s.deliver("hdr", b, "chan")
-							s.stopQueued(b, pa)
+							s.stopQueued(b, pa, rep%2 == 1)
 							s.settle()
 							c.Count("stopqueued", 1)
 						})
